@@ -69,17 +69,18 @@ class OkImplies:
         return self.desc_place(body, p, depth)
 
     def desc_place(self, body, p, depth=4):
-        rp = root_place(body, p)
-        if rp is not None and rp != p:
-            # a closure capture or another temp: name it by the variable it came from
-            for d in body.j["dbg"]:
-                if d["p"]["l"] == rp["l"] and d["p"]["p"] and d["p"]["p"] == rp["p"][:len(d["p"]["p"])]:
-                    return "var:" + d["name"]
-            if place_fields(rp):
-                return "field:" + place_fields(rp)[-1]
         names = [e.split(":", 1)[1] for e in p["p"] if e.startswith(".") and e.split(":", 1)[1] and not e.split(":", 1)[1].isdigit()]
         if names:
             return "field:" + names[-1]
+        rp = root_place(body, p)
+        if rp is not None and rp != p:
+            # a closure capture or another temp: name it by the variable it came from
+            rn = [f for f in place_fields(rp) if not f.isdigit()]
+            if rn:
+                return "field:" + rn[-1]
+            for d in body.j["dbg"]:
+                if d["p"]["l"] == rp["l"] and d["p"]["p"] and d["p"]["p"] == rp["p"][:len(d["p"]["p"])]:
+                    return "var:" + d["name"]
         # captured variable of a closure / named place
         for d in body.j["dbg"]:
             if d["p"]["l"] == p["l"] and d["p"]["p"] == p["p"][:len(d["p"]["p"])] and d["p"]["p"]:
